@@ -76,8 +76,11 @@ class _FieldOfDressed:
             # Copy the python data (changes also dressed_new._xobject)
             dressed_new.__dict__.update(value.__dict__)
 
-            # Restore correct _xobject
-            dressed_new._xobject = getattr(container._xobject, self.name)
+            # Restore correct _xobject (also for the nested dressed parts,
+            # which would otherwise keep wrapping the data of `value`)
+            dressed_new._reinit_from_xobject(
+                _xobject=getattr(container._xobject, self.name)
+            )
         else:
             self.content = None
             setattr(container._xobject, self.name, value)
